@@ -150,7 +150,7 @@ func runCheck(p *PropCheck, tier string) int {
 				f.Msg = stripSite(v.Msg)
 				f.Fn = v.Site
 			}
-			if seen[f.Signature()] >= 3 {
+			if seen[f.Signature()] >= 6 {
 				continue
 			}
 			seen[f.Signature()]++
